@@ -284,7 +284,7 @@ static void run_type(uint64_t seed)
     // float32: all 2^32 bit patterns through the unary ops (thorough) or a strided sample (quick)
     if (sizeof(T) == 4)
     {
-        uint64_t stride = ctx().tier ? 1 : 509, start = ctx().tier ? 0 : seed % 509;
+        uint64_t stride = sweep_stride(509), start = seed % stride;
         size_t fill = 0;
         uint64_t cnt = 0;
         for (uint64_t p = start; p < (1ull << 32); p += stride)
